@@ -293,6 +293,10 @@ def run_history(case):
                     if api == "py":
                         if after_get != before_get:
                             f05.append(("rejected-call-changed-state:%s%s" % (expect, tag), "op %d %r: %r -> %r" % (i, _brief(op), before_get, after_get)))
+                            f19.append(("counters-changed-by-rejected-call" + tag, "op %d %r: %r -> %r" % (i, _brief(op), before_get, after_get)))
+                        elif after_snap != before_snap:
+                            # the getters did not move although the recording did: bookkeeping no longer describes it
+                            f19.append(("recording-changed-by-rejected-call-but-counters-not" + tag, "op %d %r: %s" % (i, _brief(op), treeutil.diff(before_snap, after_snap))))
                     else:
                         mf, md = model_last_paths(cfg, m, ch)
                         if after_get["next"] != m.next_avail:
